@@ -1,6 +1,6 @@
 # replay of a solver counterexample against the real library (exit 1 = reproduces)
 import sys, warnings
-sys.path.insert(0, '/tmp/sr/C09-m6')
+sys.path.insert(0, '/repo')
 warnings.simplefilter('ignore')
 import numpy as np
 from svgpathtools import *
